@@ -2,6 +2,9 @@
 package c17
 
 import (
+	"os"
+
+	"github.com/danos/mgmterror"
 	"encoding/json"
 	"fmt"
 	"sort"
@@ -327,6 +330,29 @@ func check(r rec) (vs []engine.Violation, implOK, refOK bool) {
 		if el != "" && !strings.Contains(msg, el) {
 			mk("error-does-not-identify-element:"+shape, fmt.Sprintf("offending element %q (index %d) not in: %s", el, bad, msg))
 		}
+		// ... and must not point past it: the position the error names (its path, plus the
+		// bad-element it reports, if any) has as many components as the walk had consumed when it
+		// met the first offending element (a path that merely ends too early may be reported at
+		// its last element or at the missing one)
+		if pe, ok := err.(interface {
+			GetPath() string
+			GetInfo() mgmterror.MgmtErrorInfo
+		}); ok && os.Getenv("VERIF_C17_NO_DEPTH") == "" {
+			depth := 0
+			if ep := pe.GetPath(); ep != "" && ep != "/" {
+				depth = len(strings.Split(strings.TrimPrefix(ep, "/"), "/")) // (an empty token is a component too)
+			}
+			if hasTag(pe.GetInfo(), "bad-element") {
+				depth++
+			}
+			okDepth := depth == bad+1
+			if bad >= len(r.Path) {
+				okDepth = depth == len(r.Path) || depth == len(r.Path)+1
+			}
+			if !okDepth {
+				mk("error-points-at-another-element:"+shape, fmt.Sprintf("first offending element is index %d of %q, the error names a position of depth %d: path %q info %v: %s", bad, r.Path, depth, pe.GetPath(), pe.GetInfo(), msg))
+			}
+		}
 	}
 	return
 }
@@ -418,8 +444,10 @@ func runGenerated(c *engine.Ctx) {
 		}
 		n := gi
 		kids := fromC18(g, &n)
-		if ms, _ := compileKids(kids); ms == nil {
+		if ms, msg := compileKids(kids); ms == nil {
+			// (never happens on the current tree; not to be skipped silently)
 			c.Add("generated_schemas_rejected_by_the_compiler", 1)
+			c.Report(engine.Violation{Key: "generated-schema-does-not-compile", Witness: fmt.Sprint(gi), Detail: fmt.Sprint(msg), Harness: "generated-schema"})
 			continue
 		}
 		nm := map[string]bool{}
@@ -456,6 +484,25 @@ func runGenerated(c *engine.Ctx) {
 			if len(p) == maxLen || dead {
 				if dead {
 					c.Add("pruned_subtrees", 1)
+					// one more token behind a dead prefix all the same (not recursively): a second
+					// offending element must not change which element the error names
+					if len(p) == 2 && !c.Quick() {
+						for _, t := range toks {
+							q := append(append([]string{}, p...), t)
+							for _, inc := range []bool{true, false} {
+								r := rec{Schema: -1, Gen: kids, Path: q, Incomplete: inc}
+								if !c.Case(fmt.Sprintf("g%d:%v:dead:%q", gi, inc, q)) {
+									continue
+								}
+								c.Add("states", 1)
+								vs, implOK, refOK := check(r)
+								c.Outcome(fmt.Sprintf("ref=%v:impl=%v", refOK, implOK))
+								for _, v := range vs {
+									c.Report(v)
+								}
+							}
+						}
+					}
 				}
 				return
 			}
@@ -563,4 +610,13 @@ func replay(c *engine.Ctx, sub string, raw json.RawMessage) []engine.Violation {
 	}
 	vs, _, _ := check(r)
 	return vs
+}
+
+func hasTag(info mgmterror.MgmtErrorInfo, name string) bool {
+	for _, t := range info {
+		if t.XMLName.Local == name {
+			return true
+		}
+	}
+	return false
 }
